@@ -185,14 +185,18 @@ CHECKS["C17"] = (
 
 CHECKS["C04"] = (
     "Rocq proof (round trip, class and key separation, session binding, Dolev-Yao unforgeability over symbolic Fernet/JWS) + vm_compute correspondence on real handler plaintexts + every-token-in-every-slot and byte-mutant oracle on real endpoints",
-    "Theorems (Props/C04.v, 12, closed): a minted opaque token resolves with its own handler to exactly its session id; a handler refuses "
+    "Theorems (Props/C04.v, 15, closed): a minted opaque token resolves with its own handler to exactly its session id; a handler refuses "
     "a token minted for another class even when all handlers share one key (the class field inside the authenticated plaintext decides); "
     "foreign-key tokens do not decrypt; equal token values imply equal class and session; with the handler key unpublished every derivable "
     "term the handler accepts is something the provider published, of an accepted class, resolving to a session that class was minted for "
     "(C04_unforgeable); the same for JWT tokens (class separation, ID Token is no access token, expired signature refused, foreign key, "
-    "unforgeability); lv codec for all lists of all strings. Correspondence: real tokens decrypted with the handler's key vs. the model's "
+    "unforgeability); which key verifies a JWT (Model/JwtKeys.v: keys are looked up under the issuer the token names; with algorithm and "
+    "issuer pinned an accepted token names this provider and was produced with one of its own keys - C04_jwt_accepted_is_own, "
+    "C04_jwt_key_of_another_owner_refused, with the refutation witness for the code before 785ab74); lv codec for all lists of all "
+    "strings. Correspondence: genuine and re-signed JWTs (provider keys, client secrets, client-registered keys, fresh keys x five "
+    "issuer claims) presented to the real JWT handlers vs. the key-jar model; real tokens decrypted with the handler's key vs. the model's "
     "lv_pack(rnd,class,sid,exp); info() matrix handler x class x shared/distinct keys. Oracle: genuine tokens of all classes in all slots "
-    "of userinfo/introspection/token endpoint on 3 provider variants, another instance's tokens, ~15-80 byte-level mutants per token.",
+    "of userinfo/introspection/token endpoint on 3 provider variants, another instance's tokens, ~15-80 byte-level mutants and ~30 key-confusion forgeries per token.",
     LEVEL_NOTE_COMMON + "Partial: byte-level integrity (bit flips, truncation, re-encoding) rests on the AE/JWS idealisation and is exercised on the real libraries, not proved.",
     "DESIGN.md §6 C04")
 
